@@ -25,7 +25,11 @@ TRUSTED_BASE = [
     "every value of every run, not proved",
     "PEST's reading of instruction files (marker search, 'l1', fixed columns) as modelled by runIns; PEST's case folding of names",
     "PyYAML load of the template filled with the original values",
+    "translator tools/gen_schema.py: spowtd/schema.sql as parsed by SQLite itself (PRAGMA table_info / index_list / "
+    "foreign_key_list; CHECK clauses and view bodies cut from the stored CREATE text) -> lean/SchemaTie/Generated.lean; "
+    "the declarations the proofs assume are re-checked by `rfl` on every run (SchemaTie/Curves.lean)",
 ]
+SCHEMA_TIE = ('Curves',)
 ASSUMPTIONS = ["both functions use the same parameterisation (spline/spline or peatclsm/peatclsm), as in the shipped parameter files",
                "the curves observation file is the rise vector output followed by the recession vector output"]
 RULE = ("planted datasets with varying numbers of rise and recession levels (tens to hundreds; one dataset per quick run "
